@@ -371,7 +371,11 @@ pub(crate) fn c18_oracle(c: &Bytes, st: &mut Stats) -> Verdict {
     for (k, (name, pt, min, _, _)) in TYPED.iter().enumerate() {
         let r = typed_parse(k, b)?.map(|_| ());
         if let Err(e) = &r {
-            any_err = true;
+            // six of the seven typed parsers reject every input for its type byte alone: only the error of the
+            // parser whose type the input carries makes a case non-trivial
+            if b.len() >= 2 && b[1] == *pt {
+                any_err = true;
+            }
             note(st, "typed", e);
             truthful(name, Some(*pt), b, e)?;
         }
@@ -435,7 +439,6 @@ pub(crate) fn c18_oracle(c: &Bytes, st: &mut Stats) -> Verdict {
     // report block and FCI parsers on the raw string
     let r = no_panic("ReportBlock::parse", || ReportBlock::parse(b).map(|_| ()))?;
     if let Err(e) = &r {
-        any_err = true;
         note(st, "ReportBlock", e);
         truthful("ReportBlock", None, b, e)?;
     }
@@ -446,7 +449,6 @@ pub(crate) fn c18_oracle(c: &Bytes, st: &mut Stats) -> Verdict {
         ($t:ty, $name:expr) => {{
             let r = no_panic($name, || <$t as FciParser>::parse(b).map(|_| ()))?;
             if let Err(e) = &r {
-                any_err = true;
                 note(st, "fci", e);
                 truthful($name, None, b, e)?;
             }
@@ -491,7 +493,7 @@ pub fn c18(tier: Tier) -> Check {
         rule: "cases = byte strings as for C08 (generated + header-space sweep); parsers: the 7 typed parsers, Packet, Unknown, Compound (+ errors yielded by its iteration), ReportBlock, the 5 FCI parsers, Packet::try_as; \
                oracle on Err(e): UnsupportedVersion(v) => v == input version != 2; PacketTypeMismatch => actual == type byte, requested == the parser's type, they differ; Truncated => expected > actual; TooLarge => expected < actual; \
                + every length field (all 65536 in the thorough tier) x {exact, exact+padded, one bit of the length flipped (2 ways), one word longer / shorter, P with a zero count}, zero bodies up to 256 KiB; + SDES-shaped bodies; \
-               exact predictions: len < MIN => Truncated{MIN,len}; version 2, right type, len >= MIN, len != 4*(lf+1) => Truncated/TooLarge{4*(lf+1),len} by sign; non-trivial = some parser produced an error",
+               exact predictions: len < MIN => Truncated{MIN,len}; version 2, right type, len >= MIN, len != 4*(lf+1) => Truncated/TooLarge{4*(lf+1),len} by sign; non-trivial = an error from the typed parser whose type byte the input carries, from Packet / Unknown / Compound (or an item of its iteration) or from a conversion (the errors of the other six typed parsers, of ReportBlock::parse and of the raw FCI parsers are judged too but do not count)",
         assumptions: vec!["other error variants (InvalidPadding, Sdes*, WrongImplementation) carry no claim in the statement and are not judged"],
         legs: vec![
             Box::new(RandomLeg { name: "generated-strings", cases: tier.pick(480_000, 3_000_000), make: Box::new(gen::parser_input), oracle: c18_oracle }),
